@@ -664,6 +664,55 @@ def rule_pb_dead(ctx):
     return r
 
 
+def rule_pb_threshold(ctx):
+    r = RuleResult('R-pb-threshold', 'degeneracy tests in pullback kernels (`abs(gap) > tol`: repeated eigenvalues, rank) compare against a constant like the '
+                                     'forward kernel does, not against a tolerance computed from the data: forward and reverse sweep must take the same '
+                                     'decision for the same base point')
+    eff = ctx.effects
+    n = 0
+    for fi in eff.funcs:
+        if not (fi.name.startswith('_pb_') or fi.name.endswith('_pullback')):
+            continue
+        for t in walk_no_nested(fi.node):
+            if not (isinstance(t, ast.Compare) and len(t.ops) == 1 and isinstance(t.ops[0], (ast.Gt, ast.GtE, ast.Lt, ast.LtE))):
+                continue
+            sides = [t.left, t.comparators[0]]
+            mag = [x for x in sides if isinstance(x, ast.Call) and (dotted_name(x.func) or '').split('.')[-1] in ('abs', 'absolute', 'fabs')]
+            if len(mag) != 1:
+                continue
+            tol = sides[1] if sides[0] is mag[0] else sides[0]
+            # does the tolerance depend on array data?
+            names = {x.id for x in ast.walk(tol) if isinstance(x, ast.Name)}
+            seen = set()
+            todo = list(names)
+            data_dep = None
+            while todo:
+                nm = todo.pop()
+                if nm in seen:
+                    continue
+                seen.add(nm)
+                if nm.endswith('_data') or nm.endswith('bar'):
+                    data_dep = nm
+                    break
+                for st in walk_no_nested(fi.node):
+                    if isinstance(st, ast.Assign) and any(isinstance(tt, ast.Name) and tt.id == nm for tt in st.targets):
+                        # shapes / dtypes of arrays are not data
+                        skip = set()
+                        for x in ast.walk(st.value):
+                            if isinstance(x, ast.Attribute) and x.attr in ('shape', 'dtype', 'ndim', 'size'):
+                                skip |= {id(y) for y in ast.walk(x.value)}
+                        todo.extend(x.id for x in ast.walk(st.value) if isinstance(x, ast.Name) and id(x) not in skip)
+            n += 1
+            if data_dep:
+                r.bad(Finding('R-pb-threshold', _f(fi), norm(t)[:80], '%s: the degeneracy test `%s` uses a tolerance derived from `%s`; the forward kernel decides with a '
+                                                                      'constant, so the two sweeps can disagree about which eigenvalues / pivots are degenerate'
+                              % (fi.qualname, norm(t)[:60], data_dep), fi.file, t.lineno))
+            else:
+                r.ok(construct='%s:%s' % (fi.qualname, norm(t)[:40]), sample='%s: `%s` (constant tolerance)' % (fi.qualname, norm(t)[:60]))
+    r.floor = 2
+    return r
+
+
 def rule_pb_setitem_clear(ctx):
     r = RuleResult('R-pb-setitem-clear', 'the pullback of an in-place write y[sl] = x clears the adjoint of the overwritten entries '
                                          '(ybar[sl] = 0) on every returning path - whatever the kind of x: the old contents of y[sl] no '
